@@ -344,3 +344,76 @@ class StepCounter:
         self.on = False
         sys.monitoring.set_events(self.TOOL, 0)
         return self.count
+
+
+# --------------------------------------------------------------------------------------
+# pristine-state reference: answers computed in a process state no library call has touched
+# --------------------------------------------------------------------------------------
+
+class Pristine:
+    """A child forked before the calling process made any call of the library (imports only).  It serves requests by
+    forking a grandchild per request, so every answer comes from the import-time state: the reference for "the result
+    depends on the input only".  fn(arg) must return something JSON-serialisable."""
+
+    def __init__(self, fn):
+        import json, os
+        req_r, req_w = os.pipe()
+        res_r, res_w = os.pipe()
+        pid = os.fork()
+        if pid == 0:
+            try:
+                os.close(req_w)
+                os.close(res_r)
+                rf, wf = os.fdopen(req_r, 'rb'), os.fdopen(res_w, 'wb')
+                while True:
+                    line = rf.readline()
+                    if not line:
+                        break
+                    arg = json.loads(line)
+                    r, w = os.pipe()
+                    p2 = os.fork()
+                    if p2 == 0:
+                        code = 0
+                        try:
+                            os.close(r)
+                            try:
+                                data = json.dumps(fn(arg)).encode()
+                            except BaseException as e:          # noqa
+                                data = json.dumps(['harness-error', repr(e)[:200]]).encode()
+                            with os.fdopen(w, 'wb') as f:
+                                f.write(data)
+                        except BaseException:                   # noqa
+                            code = 3
+                        finally:
+                            os._exit(code)
+                    os.close(w)
+                    with os.fdopen(r, 'rb') as f:
+                        data = f.read()
+                    os.waitpid(p2, 0)
+                    wf.write(len(data).to_bytes(4, 'big') + data)
+                    wf.flush()
+            finally:
+                os._exit(0)
+        os.close(req_r)
+        os.close(res_w)
+        self.pid = pid
+        self.wf, self.rf = os.fdopen(req_w, 'wb'), os.fdopen(res_r, 'rb')
+        self.calls = 0
+
+    def call(self, arg):
+        import json
+        self.wf.write(json.dumps(arg).encode() + b'\n')
+        self.wf.flush()
+        n = int.from_bytes(self.rf.read(4), 'big')
+        self.calls += 1
+        return json.loads(self.rf.read(n)) if n else None
+
+    def close(self):
+        import os
+        try:
+            self.wf.close()
+            self.rf.close()
+            os.waitpid(self.pid, 0)
+        except Exception:
+            pass
+
